@@ -1,11 +1,11 @@
 INIT Init
 NEXT Next
 CONSTANTS
-  Part = "scope"
-  MaxDim = 3
-  NReal = 4
-  NCplx = 2
-  Big = FALSE
+  Part = "near"
+  MaxDim = 4
+  NReal = 7
+  NCplx = 3
+  Big = TRUE
 INVARIANT InvOutcomeDomain
 INVARIANT InvNoPredOnlyScalarPow
 INVARIANT InvShape
